@@ -605,7 +605,7 @@ func runGate(t *testing.T, sc *GateScenario) (st *gateStats, hist *History, fail
 	if g.diverged != "" {
 		st.label("diverged-from-completion-order-model")
 	}
-	v := judge(hist, 20*time.Second)
+	v := judge(hist, 20*time.Second, 20*time.Second)
 	switch {
 	case v.class != "":
 		return st, hist, &gateFail{v.class, v.msg}
